@@ -1,2 +1,59 @@
-(* Props/C01.v — the store behaves as a key-value map for every operation sequence. *)
-From BC Require Import Store.Engine.
+(* Props/C01.v — C01: the store behaves as a key-value map for every operation sequence.
+   Model: Store/Engine.v ([run], [step], [init]); specification: [spec_run] over [bytes -> option bytes].
+   [run_ready] only asks that every merge is handed an iteration order that visits each index entry
+   of a selected file exactly once (what iterating the index does); configurations (max file size
+   from 0 up, thresholds, sync) are universally quantified in [c]. *)
+From BC Require Import Store.Engine Store.Log Store.Inv Store.Refine Store.Merge Store.Theorems.
+Open Scope N_scope.
+
+(* 1. Every result of every script equals the map's result: a get returns exactly the latest set of
+      that key (or nothing), a delete reports presence, merges and reopen cycles at arbitrary
+      positions change nothing; and the final state still satisfies the invariant. *)
+Theorem C01_refines_map : forall c ops,
+  run_ready c init ops ->
+  let '(s', rs, _) := run c init ops in
+  Inv s' /\ rs = spec_run (fun _ => None) ops /\ forall k, abs s' k = spec_final (fun _ => None) ops k.
+Proof.
+  intros c ops Hr. pose proof (run_refines c ops init (proj1 init_inv) Hr) as H.
+  destruct (run c init ops) as [[s' rs] ts]. destruct H as (HI & Hrs & Hfin).
+  assert (H0 : forall k, abs init k = (fun _ : bytes => @None bytes) k).
+  { intros k. unfold abs. rewrite (proj2 init_inv). reflexivity. }
+  destruct (spec_run_ext ops _ _ H0) as [E1 E2]. split; [exact HI|]. split; [rewrite Hrs; exact E1|].
+  intros k. rewrite Hfin. apply E2.
+Qed.
+Print Assumptions C01_refines_map.
+
+(* 2. ... from any state satisfying the invariant, not only the empty store. *)
+Theorem C01_refines_map_from : forall c ops s, Inv s -> run_ready c s ops ->
+  let '(s', rs, _) := run c s ops in
+  Inv s' /\ rs = spec_run (abs s) ops /\ forall k, abs s' k = spec_final (abs s) ops k.
+Proof. exact run_refines. Qed.
+Print Assumptions C01_refines_map_from.
+
+(* 3. No operation of such a script fails or panics (in particular the counter arithmetic never
+      underflows and every index entry can be read). *)
+Theorem C01_no_failure : forall c s o, Inv s -> op_ready c s o -> normal (snd (fst (step c s o))) = true.
+Proof. exact no_underflow. Qed.
+Print Assumptions C01_no_failure.
+
+(* 4. A get reads what the log says is the latest value. *)
+Theorem C01_get : forall s k, Inv s -> get s k = ROk (abs s k).
+Proof. exact get_abs. Qed.
+Print Assumptions C01_get.
+
+(* Non-vacuity: a 12-operation script over three files with a rollover, a delete, a merge of every
+   file and a reopen is ready, and runs to the map's answers. *)
+Definition ex_cfg := mkCfg 60 false 0 1 0 1000000000.
+Definition ex_ops : list op :=
+  [OSet [107] [118; 49]; OSet [97] [1; 2; 3]; OSet [107] [118; 50]; ODel [97]; OGet [97]; OGet [107];
+   OSet [98] []; OMerge [[98]; [107]]; OGet [107]; OReopen; OGet [98]; OGet [97]].
+Example C01_example_ready : run_ready ex_cfg init ex_ops.
+Proof.
+  cbn [run_ready ex_ops]. repeat split.
+  intros sel0 H. vm_compute in H. inversion H; subst. vm_compute. reflexivity.
+Qed.
+Example C01_example_results :
+  snd (fst (run ex_cfg init ex_ops)) =
+  [VUnit; VUnit; VUnit; VBool true; VVal None; VVal (Some [118; 50]); VUnit; VUnit; VVal (Some [118; 50]); VUnit;
+   VVal (Some []); VVal None].
+Proof. vm_compute. reflexivity. Qed.
